@@ -497,7 +497,9 @@ pub fn part2<C: Ciphersuite>(
     }
 
     for package in round1_packages.values() {
-        if package.commitment.min_signers() != secret_package.min_signers {
+        // Compare the lengths as `usize`: `min_signers()` truncates the
+        // number of coefficients to `u16`.
+        if package.commitment.coefficients().len() != secret_package.min_signers as usize {
             return Err(Error::IncorrectNumberOfCommitments);
         }
     }
